@@ -108,6 +108,7 @@ class BitsBytes:
     def __init__(self, bits, end, start=0, nfields=None):
         self.bits, self.start, self.end = bits, start, end
         self.nfields = len(bits.fields) if nfields is None else nfields     # how many fields existed when taken
+        self.snapshot = [(n, v) for n, v in bits.fields[:self.nfields]]     # bytes are immutable: the values as of now
 
     def len(self, eng):
         return (self.end - self.start) // 8
@@ -117,7 +118,9 @@ class BitsBytes:
         hi = (self.end - self.start) // 8 if hi is None else hi
         if not isinstance(lo, int) or not isinstance(hi, int):
             raise Unsupported('symbolic slice of encoded bytes')
-        return BitsBytes(self.bits, self.start + 8 * hi, self.start + 8 * lo, self.nfields)
+        out = BitsBytes(self.bits, self.start + 8 * hi, self.start + 8 * lo, self.nfields)
+        out.snapshot = self.snapshot
+        return out
 
     def method(self, eng, name, args, kwargs, e):
         if name == 'tolist':
@@ -146,11 +149,14 @@ class CrcModel:
                 # encode side: CRC of everything written so far
                 c = fresh('crc32')
                 eng.assume(z3.And(c >= 0, c < 2 ** 32))
-                bits.crc_mark = (len(bits.fields), c)
+                # the CRC is of the field VALUES at this moment (a later overwrite changes the data, not the CRC)
+                bits.crc_mark = (len(bits.fields), c, list(d.snapshot))
                 return c
             mark = getattr(bits, 'crc_mark', None)
             if mark is not None and d.start == 0 and len(bits.fields) == mark[0] + 1 and bits.fields[-1][0] == 32 \
-                    and bits.fields[-1][1].eq(mark[1]) and d.end == bits.total():
+                    and bits.fields[-1][1].eq(mark[1]) and d.end == bits.total() \
+                    and len(mark[2]) == mark[0] \
+                    and all(n == n0 and zint(v).eq(zint(v0)) for (n, v), (n0, v0) in zip(d.snapshot[:mark[0]], mark[2])):
                 return z3.IntVal(0)          # residue property
             return fresh('crc32_of_other_data')
         raise Unsupported(f'Crc32Mpeg2.{name}')
